@@ -723,6 +723,50 @@ def st_gfa2(draw):
             "edit": r.randint(1, 50) if gen.chance(r, 0.6) else None}
 
 
+def prop_whole(case):
+    """A link whose overlap takes up a whole segment (on the from side, the to side or both): the E line has the
+    model's intervals, '$' exactly where a position equals the segment length, and the output is valid at vlevel 3.
+    (Read back, such an edge is a containment by the GFA2 definition; that direction is not judged.)"""
+    lines, slen, p_ = case["lines"], case["slen"], case["link"]
+    text1 = "\n".join(lines)
+    want = m_link_to_edge(p_, slen)
+    for how in ("to_gfa2_s", "to_gfa2", "line"):
+        try:
+            g = gfapy.Gfa(lines, version="gfa1", vlevel=case["vlevel"])
+            if how == "line":
+                text = "\n".join(x.to_gfa2_s() for x in g.lines)
+            else:
+                text = g.to_gfa2_s() if how == "to_gfa2_s" else str(g.to_gfa2())
+        except Exception as e:
+            raise Violation("conversion-refused", "%s raised %s: %s\n%s" % (how, type(e).__name__, str(e)[:300], text1), "whole/" + type(e).__name__)
+        recs = parse_out(text, "gfa2", how + " output")
+        es = [x for x in recs if x.rt == "E"]
+        if len(es) != 1:
+            raise Violation("edges", "%s: %d E lines for one link\n%s\n-- result --\n%s" % (how, len(es), text1, text), "whole")
+        got = es[0].pos[1:7]
+        if [str(x) for x in got] != [str(x) for x in want[:6]]:
+            raise Violation("edges", "%s: E line %s, expected %s ('$' exactly at a segment's end)\n%s\n-- result --\n%s" % (
+                how, got, want[:6], text1, text), "whole")
+    return {"nt": True, "whole_overlap": case["side"]}
+
+
+@st.composite
+def st_whole(draw):
+    r = draw(st.randoms(use_true_random=False))
+    fo, to = gen.choice(r, "+-"), gen.choice(r, "+-")
+    side = gen.choice(r, ["from", "to", "both"])
+    k = r.randint(2, 9)
+    ov = gen.choice(r, ["%dM" % k, "%dM" % k, "1M%dM" % (k - 1)])
+    la = k if side in ("from", "both") else k + r.randint(1, 20)
+    lb = k if side in ("to", "both") else k + r.randint(1, 20)
+    seqs = gen.chance(r, 0.5)
+    lines = ["S\ta\t%s" % (gen.gen_sequence(r, la) if seqs else "*\tLN:i:%d" % la), "S\tb\t%s" % (gen.gen_sequence(r, lb) if seqs else "*\tLN:i:%d" % lb),
+             "L\ta\t%s\tb\t%s\t%s" % (fo, to, ov)]
+    if gen.chance(r, 0.5):
+        r.shuffle(lines)
+    return {"lines": lines, "slen": {"a": la, "b": lb}, "link": ["a", fo, "b", to, ov], "side": side, "vlevel": gen.choice(r, [1, 2, 3])}
+
+
 def prop_cli(case):
     """bin/gfapy-convert on a file: the printed document is judged like the result of to_gfa2_s() / to_gfa1_s()
     (valid at vlevel 3, same graph as the model derives); a graph holding records without counterpart may
@@ -777,5 +821,6 @@ def parts(tier):
     return [Part("gfa1", prop_gfa1, strategy=st_gfa1(), n=300 if q else 1500, quick_shards=2),
             Part("gfa2", prop_gfa2, strategy=st_gfa2(), n=300 if q else 1500, quick_shards=2),
             Part("gfa1-only-ops", prop_gfa1_only_ops, strategy=st_gfa1_only_ops(), n=150 if q else 800),
+            Part("whole-overlap", prop_whole, strategy=st_whole(), n=120 if q else 600),
             Part("cli", prop_cli, strategy=st_cli(), n=40 if q else 120, quick_shards=3,
                  note="bin/gfapy-convert as a subprocess")]
